@@ -409,6 +409,59 @@ Definition wentry (ind : option nat) (kv : list Z * tree) : list Z :=
   end ++ w_nl ind.
 Definition wentries (ind : option nat) (d : kvs) : list Z := flat_map (wentry ind) d.
 
+(* The number every write() RETURNS, accumulated as the code accumulates it (`written += ...` for each
+   piece, in the code's order).  RawData / write_length_block store this number as the length marker of
+   the engine data embedded in a type-tool block, so it must equal the number of bytes emitted
+   (theorem write_count_truthful); [Zlen] of a literal piece is the value write_bytes returns for it. *)
+Definition Zlen {A} (l : list A) : Z := Z.of_nat (length l).
+Fixpoint wc (ind : option nat) (t : tree) {struct t} : Z :=
+  match t with
+  | TDict d =>
+      ((match ind with Some O => 1 | _ => 0 end) + Zlen (w_nl ind) + Zlen (w_ind ind) + 2 + Zlen (w_nl ind)) +
+      (fix go (l : kvs) : Z :=
+         match l with
+         | [] => 0
+         | (k, v) :: r =>
+             (Zlen (w_ind (inner ind)) + (1 + Zlen k) +
+              match v with
+              | TDict _ => wc (inner ind) v
+              | TList items => 1 + wc (list_ind ind items) v
+              | _ => 1 + wc None v
+              end + Zlen (w_nl ind)) + go r
+         end) d +
+      (Zlen (w_ind ind) + 2)
+  | TList items =>
+      1 +
+      match ind with
+      | None =>
+          (fix go (l : list tree) : Z :=
+             match l with
+             | [] => 0
+             | it :: r => (match it with TDict _ => wc None it | _ => 1 + wc None it end) + go r
+             end) items + 1
+      | Some _ =>
+          (fix go (l : list tree) : Z :=
+             match l with
+             | [] => 0
+             | it :: r => (match it with
+                           | TDict _ => wc ind it
+                           | _ => Zlen (w_nl ind) + Zlen (w_ind ind) + wc None it
+                           end) + go r
+             end) items + Zlen (w_nl ind) + Zlen (w_ind ind)
+      end + 1
+  | _ => Zlen (leaf_bytes t)
+  end.
+Definition centry (ind : option nat) (kv : list Z * tree) : Z :=
+  let '(k, v) := kv in
+  Zlen (w_ind (inner ind)) + (1 + Zlen k) +
+  match v with
+  | TDict _ => wc (inner ind) v
+  | TList items => 1 + wc (list_ind ind items) v
+  | _ => 1 + wc None v
+  end + Zlen (w_nl ind).
+Fixpoint zsum (l : list Z) : Z := match l with [] => 0 | x :: r => x + zsum r end.
+Definition centries (ind : option nat) (d : kvs) : Z := zsum (map (centry ind) d).
+
 Inductive layout := Indented | Compact.
 (* EngineData(d).tobytes()  = Dict.write(fp, indent=0, write_container=True)
    EngineData2(d).tobytes() = Dict.write(fp, indent=None, write_container=False) *)
@@ -416,6 +469,12 @@ Definition write (ly : layout) (d : kvs) : res (list Z) :=
   match ly with
   | Indented => Ok (wv (Some O) (TDict d))
   | Compact => Ok (wentries None d)
+  end.
+(* the value returned by EngineData(d).write(fp) / EngineData2(d).write(fp) *)
+Definition write_count (ly : layout) (d : kvs) : Z :=
+  match ly with
+  | Indented => wc (Some O) (TDict d)
+  | Compact => centries None d
   end.
 
 (* ====================================================================== guards of the theorems *)
@@ -445,7 +504,6 @@ Fixpoint wf_tree (t : tree) : bool :=
   end.
 (* ====================================================================== canonical serialisation *)
 (* used by the correspondence check to compare a parsed tree with the implementation's *)
-Definition Zlen {A} (l : list A) : Z := Z.of_nat (length l).
 Definition b2z (b : bool) : Z := if b then 1 else 0.
 Fixpoint ser (t : tree) : list Z :=
   match t with
